@@ -136,7 +136,9 @@ example :
 /-- **P1 (`run_admissible_C05`).** For every program (top-level API calls; callback scripts that
     register, cancel, reset, request an interrupt, move the clock, return any status; all priorities;
     tied deadlines; scripted poll answers with ERR/HUP, EINTR — with any amount of time passing before the signal, any
-    number of times in a row — and clock advance) and every fuel, the
+    number of times in a row —, a signal whose handler calls `events_interrupt()` during any poll (infinite, finite
+    or zero timeout, at any position among the other answers, whatever becomes ready or expires next), and clock
+    advance) and every fuel, the
     trace of the model is accepted by the C05 monitor: immediates run in `nextImm` order and before any
     socket or timer callback; a timer runs only when no socket reported by the latest poll is waiting
     and no timer has an earlier deadline; no poll blocks while something is runnable, none blocks
@@ -144,7 +146,10 @@ example :
     call that starts with something runnable, or wakes up for a registered descriptor or an expired
     timer, runs a callback before it returns, and does not return 0 (uninterrupted) while the latest
     poll's report or an expired timer is still outstanding; after a non-zero status or with an
-    interrupt request pending nothing more is dispatched and the return value is that status / 0;
+    interrupt request pending nothing more is dispatched and the return value is that status / 0; an
+    interrupt request made by a signal handler while poll was waiting (timeout ≠ 0) stops dispatching at
+    once — no callback is started and no further poll issued in that call, which returns 0 (one made during
+    the non-blocking poll between two callbacks lets the pass finish: at most one more callback);
     `events_network_cancel`/`register` answer ENOENT/EEXIST exactly for absent/present registrations
     (events not yet run stay registered).
 
@@ -175,6 +180,27 @@ example : (run 50 demo).length = 49 ∧ C05.admissible (run 50 demo) = true := b
 example : run 50 [.api (.regTimer 0 1000001), .pollAns (.eintr 1000), .pollAns (.eintr 1), .pollAns (.eintr 999000), .run] =
     [.op (.regTimer 0 1000001) .ok, .runBegin, .poll 1001 1000 [] .eintr, .poll 1000 1 [] .eintr, .poll 999 999000 [] .eintr,
      .poll 0 0 [] .ok, .poll 0 0 [] .ok, .cb 0, .cbEnd 0, .poll 0 0 [] .ok, .ret 0] := by
+  decide +kernel
+
+/-- a signal handler calls `events_interrupt()` while the loop waits 5 ms for a timer, at the very moment of the deadline,
+    and the descriptor is ready at the next poll: the call returns 0 at once — no zero-timeout poll, no callback —, the
+    interrupt flag is cleared, both events are still registered, and the next call runs them (socket first) -/
+example : run 50 [.api (.regNet 1 3 .rd), .api (.regTimer 2 5000), .pollAns (.intr 5000),
+                  .pollAns (.ans 0 [(3, { r := true })]), .run, .run] =
+    [.op (.regNet 1 3 .rd) .ok, .op (.regTimer 2 5000) .ok,
+     .runBegin, .poll 5 5000 [⟨3, { r := true }, {}⟩] .intr, .ret 0,
+     .runBegin, .poll 0 0 [⟨3, { r := true }, { r := true }⟩] .ok, .cb 1, .cbEnd 0, .poll 0 0 [] .ok, .cb 2, .cbEnd 0,
+     .poll 0 0 [] .ok, .ret 0] := by
+  decide +kernel
+
+/-- the same signal during an infinite wait, after an EINTR without a request, and during the non-blocking poll that
+    follows a callback (there the pass goes on: the expired timer still runs, then dispatching stops) -/
+example : run 50 [.api (.regNet 1 3 .rd), .pollAns (.eintr 7), .pollAns (.intr 9), .run,
+                  .api (.regTimer 2 0), .pollAns (.ans 0 [(3, { r := true })]), .pollAns (.intr 0), .run] =
+    [.op (.regNet 1 3 .rd) .ok,
+     .runBegin, .poll (-1) 7 [⟨3, { r := true }, {}⟩] .eintr, .poll (-1) 9 [⟨3, { r := true }, {}⟩] .intr, .ret 0,
+     .op (.regTimer 2 0) .ok,
+     .runBegin, .poll 0 0 [⟨3, { r := true }, { r := true }⟩] .ok, .cb 1, .cbEnd 0, .poll 0 0 [] .intr, .cb 2, .cbEnd 0, .ret 0] := by
   decide +kernel
 
 /-- finding F12's input on the repaired code: a timer 2147483.5 s ahead.  The first call waits 2147483000 ms
@@ -220,6 +246,23 @@ example :
     C05.admissible [.op (.regImm 1 0) .ok, .op (.regImm 2 0) .ok, .runBegin, .cb 1, .cbEnd 7, .cb 2] = false ∧
     C05.admissible [.op (.regImm 1 0) .ok, .runBegin, .cb 1, .cbEnd 7, .ret 0] = false ∧
     C05.admissible [.op (.regImm 1 0) .ok, .op (.regImm 2 0) .ok, .runBegin, .cb 1, .op .interrupt .ok, .cbEnd 0, .cb 2] = false ∧
+    -- an interrupt request made by a signal handler while poll waits (infinite / finite timeout): return 0 at once —
+    -- no look for more descriptors, no callback for the descriptor that is ready by then or the timer that expires
+    -- at that moment (what the code does if the flag is tested only at the end of a pass: seeded change C05-3)
+    C05.admissible [.op (.regNet 1 3 .rd) .ok, .runBegin, .poll (-1) 5 [⟨3, { r := true }, {}⟩] .intr, .ret 0] = true ∧
+    C05.admissible [.op (.regNet 1 3 .rd) .ok, .runBegin, .poll (-1) 5 [⟨3, { r := true }, {}⟩] .intr,
+                    .poll 0 0 [⟨3, { r := true }, { r := true }⟩] .ok] = false ∧
+    C05.admissible [.op (.regNet 1 3 .rd) .ok, .runBegin, .poll (-1) 5 [⟨3, { r := true }, {}⟩] .stuck,
+                    .poll 0 0 [⟨3, { r := true }, { r := true }⟩] .ok] = false ∧
+    C05.admissible [.op (.regNet 1 3 .rd) .ok, .runBegin, .poll (-1) 5 [⟨3, { r := true }, {}⟩] .intr, .cb 1] = false ∧
+    C05.admissible [.op (.regTimer 2 1000) .ok, .runBegin, .poll 1 1000 [] .intr, .cb 2] = false ∧
+    C05.admissible [.op (.regTimer 2 1000) .ok, .runBegin, .poll 1 1000 [] .intr, .ret 0] = true ∧
+    C05.admissible [.op (.regTimer 2 1000) .ok, .runBegin, .poll 1 1000 [] .intr, .ret (-1)] = false ∧
+    -- … during the non-blocking poll of a pass: that pass may still run one event, nothing after it
+    C05.admissible [.op (.regTimer 2 0) .ok, .op (.regTimer 3 0) .ok, .runBegin, .poll 0 0 [] .ok, .poll 0 0 [] .intr,
+                    .cb 2, .cbEnd 0, .ret 0] = true ∧
+    C05.admissible [.op (.regTimer 2 0) .ok, .op (.regTimer 3 0) .ok, .runBegin, .poll 0 0 [] .ok, .poll 0 0 [] .intr,
+                    .cb 2, .cbEnd 0, .cb 3] = false ∧
     -- unfired registrations stay
     C05.admissible [.op (.regNet 1 3 .rd) .ok, .op (.cancelNet 3 .rd) .enoent] = false := by
   decide
